@@ -32,7 +32,7 @@ DELTAS = ["0", "+ulp", "-ulp", "+eps/2", "-eps/2", "+2eps", "-2eps", "+0.9eps", 
 
 def strategy(ctx):
     rng = ctx.rng("c05-pool")
-    size = 2 if ctx.tier == "quick" else 12
+    size = 2 if ctx.tier == "quick" else 6
     pool = []
     for _ in range(size):
         cfg = ssmcase.draw_structure(rng, strategies=("filter", "fixedpoint"), nmax=5, dmax=2, inits=("exact", "inexact"), steps=(2, 2))
